@@ -715,3 +715,16 @@ Proof.
   destruct (eventually_settles n progs s Hwf HR) as [sc [Hok [Hlen [HR' HQ]]]].
   exists sc. repeat split; auto. apply (generation_completes n progs K); auto.
 Qed.
+
+(* the last arriver's bump / re-arm / notify triple is under the mutex: the step that emits
+   notify_all is taken by the owner of the mutex *)
+Lemma notify_under_mutex n progs s t c l g' l' es : wf_prog n progs = true -> R n progs s ->
+  nth_error (thr s) t = Some l -> tstep t c (gl s) l = Some (g', l', es) ->
+  In (E K_NOTIFY_ALL O_CV 0) es -> mtx (gl s) = Some t /\ mtx g' = Some t.
+Proof.
+  intros Hwf HR Hl Hs Hin. pose proof (I_owner _ _ (R_inv _ _ _ Hwf HR) t) as HO.
+  rewrite (pcof_at _ _ _ Hl) in HO.
+  destruct l as [pr p lg ar dr p0]. step_cases Hs; cbn in Hin;
+    repeat (destruct Hin as [Hin|Hin]; try discriminate); try contradiction.
+  cbn in *. split; apply HO; reflexivity.
+Qed.
